@@ -3,6 +3,7 @@ import z3
 from lib.runner import Task
 from mirsym.values import Int, Agg, Enum, Ref
 from mirsym.explore import check, Violation
+from mirsym.executor import RustPanic
 from mirsym.models import zbool, some, none
 from mirsym.models_coll import MapModel
 from mirsym import hlib
@@ -44,7 +45,23 @@ def frontier_step(w, n, progress=False):
         ts = ex.fresh_int('i64', 'ts')
         holder = [wf]
         pre = repr(wf)[:300]
-        ret = ex.call_function(upd, [Ref(holder, 0), hlib.coord(w, 0, 0, k), ts])
+        native = ex.env.get('native')
+        if native:
+            # reach the pre-state from a fresh frontier (one update per replica that has a watermark), then the step
+            ops = []
+            for i, v in enumerate(vals):
+                if v.variant == 'Some':
+                    ops += [0, i, hlib.concrete_int(ex, v.fields[0])]
+            ops += [0, k, hlib.concrete_int(ex, ts)]
+            ex.env['native_used'] = True
+            txt = native[0]('frontier', [1, n] + ops)[native[1]]
+            ex.env['native_out'] = txt
+            if txt == 'PANIC':
+                raise RustPanic('the real WatermarkFrontier panicked')
+            tok = txt.split()[-1]
+            ret = some(Int('i64', int(tok[2:-1]))) if tok.startswith('S(') else none()
+        else:
+            ret = ex.call_function(upd, [Ref(holder, 0), hlib.coord(w, 0, 0, k), ts])
         old = vals[k]
         # model of the contract
         ignored = old.variant == 'Some' and None
@@ -54,10 +71,11 @@ def frontier_step(w, n, progress=False):
         else:
             newk = ts.v
         # stored value of replica k afterwards = max(old, ts)
-        stored = holder[0].get('map').entries[k][1]
-        if stored.variant != 'Some':
-            raise Violation('replica entry not Some after update')
-        check(ex, stored.fields[0].v == newk, 'frontier entry is not max(old, ts)')
+        if not native:
+            stored = holder[0].get('map').entries[k][1]
+            if stored.variant != 'Some':
+                raise Violation('replica entry not Some after update')
+            check(ex, stored.fields[0].v == newk, 'frontier entry is not max(old, ts)')
         others = [vals[i] for i in range(n) if i != k]
         complete = all(o.variant == 'Some' for o in others)
         if ret.variant == 'Some':
@@ -82,6 +100,8 @@ def frontier_step(w, n, progress=False):
                 else:
                     raise Violation('frontier became complete but no watermark was returned', hlib._wit(ex),
                                     {'n': n, 'k': k})
+        if native:
+            return {'native': ex.env.get('native_out')}
         # invariant re-established
         f2 = holder[0].get('front')
         c2 = ex.call_function(comp, [Ref(holder, 0)])
@@ -99,6 +119,28 @@ def frontier_reset(w, n):
     def h(ex):
         wf, vals, front = frontier_state(ex, w, n)
         holder = [wf]
+        native = ex.env.get('native')
+        if native:
+            # observable consequence: after reset the frontier behaves like a fresh one, also for smaller values
+            ops = []
+            low = None
+            for i, v in enumerate(vals):
+                if v.variant == 'Some':
+                    c = hlib.concrete_int(ex, v.fields[0])
+                    ops += [0, i, c]
+                    low = c if low is None else min(low, c)
+            newv = (low if low is not None else 0) - 1
+            ops += [1, 0, 0]
+            for i in range(n):
+                ops += [0, i, newv]
+            ex.env['native_used'] = True
+            txt = native[0]('frontier', [1, n] + ops)[native[1]]
+            ex.env['native_out'] = txt
+            toks = txt.split()
+            tail = toks[-n:]
+            if tail != ['N'] * (n - 1) + ['S(%d)' % newv]:
+                raise Violation('reset leaves a watermark behind (after reset the frontier does not behave like a fresh one)')
+            return {'native': txt}
         ex.call_function(rst, [Ref(holder, 0)])
         if holder[0].get('front').variant != 'None' or \
                 any(e[1].variant != 'None' for e in holder[0].get('map').entries):
